@@ -495,10 +495,7 @@ fn run_boot(h: &HCtx, ops: &[String], start: usize, restarted: bool, lines: &Ref
                 }
                 "poll" => "ok".into(),
                 "flush" => {
-                    let r = device.with_state(|state| {
-                        let p = state.verif_parts();
-                        kv.access(|mut store, buf| p.resumption.store_persist(&mut store, buf))
-                    });
+                    let r = device.with_state(|state| state.verif_store_resumption(&kv));
                     if r.is_ok() { "ok".into() } else { "rej".into() }
                 }
                 "kvfail" => {
